@@ -11,7 +11,7 @@ from . import ty as T
 
 class Record:
     def __init__(self, name, file=None, cls=None, fields=None, bases=(), pydantic=False, consts=None,
-                 check_attrs=True, extra_attrs=()):
+                 check_attrs=True, extra_attrs=(), aliases=None):
         self.name = name
         self.file = file
         self.cls = cls or name
@@ -21,13 +21,16 @@ class Record:
         self.consts = dict(consts or {})       # class-level constants usable in code, e.g. LOCK_FILENAME
         self.check_attrs = check_attrs
         self.extra_attrs = set(extra_attrs)    # attributes known to exist through library base classes
+        # concrete attribute -> abstract field of a base record stored in the same heap map
+        # (e.g. AsyncHpcSubmitter._name IS AsyncJob.name; the real `name` property is verified to return it)
+        self.aliases = dict(aliases or {})
 
 
 class Contract:
     def __init__(self, key, file=None, qualname=None, params=None, returns="None", requires=(), ensures=(),
                  raises=None, modifies=(), loops=None, locals=None, kind="verified", pure=False,
                  fresh_result=False, note="", strings="opaque", inline=False, anon_raises=False,
-                 crash_inv=None, variant_checks=True, defs=None, ghost_updates=(), assume_body=()):
+                 crash_inv=None, variant_checks=True, defs=None, ghost_updates=(), assume_body=(), ghost_ensures=()):
         self.key = key
         self.file = file
         self.qualname = qualname or key
@@ -55,6 +58,9 @@ class Contract:
         self.crash_inv = crash_inv    # list of clauses that must hold at every statement boundary
         self.defs = dict(defs or {})
         self.assume_body = list(assume_body)
+        # definitions of ghost fields at construction / ghost bookkeeping: assumed by callers, not
+        # checked against the body (ghost state has no code); may mention only ghost fields
+        self.ghost_ensures = list(ghost_ensures)
 
     def param_names(self):
         return [p[0] for p in self.params]
@@ -129,6 +135,18 @@ def enum(name, file, cls=None):
     ENUM_SOURCES[name] = (file, cls or name)
 
 
+OPAQUE_FUNCS = set()    # dotted names of pure library functions applied as uninterpreted functions
+OPAQUE_GLOBALS = set()  # global names (classes, constants) passed around but never inspected
+
+
+def opaque_fn(*names):
+    OPAQUE_FUNCS.update(names)
+
+
+def opaque_global(*names):
+    OPAQUE_GLOBALS.update(names)
+
+
 FOLDS = {}      # name -> (element Ty, term expression over `x`, result Ty)
 
 
@@ -174,6 +192,15 @@ def lookup_method(recname, method):
     return None
 
 
+class RecName(str):
+    """Declaring record of a field; `.canon` is the canonical field name (aliases resolved)."""
+    canon = None
+
+
+def fkey(rec, field):
+    return (str(rec), getattr(rec, "canon", None) or field)
+
+
 def lookup_field(recname, field):
     seen = set()
     todo = [recname]
@@ -185,7 +212,11 @@ def lookup_field(recname, field):
         rec = RECORDS.get(r)
         if rec is None:
             continue
+        if field in rec.aliases:
+            return lookup_field(recname, rec.aliases[field])
         if field in rec.fields:
-            return r, rec.fields[field]
+            rn = RecName(r)
+            rn.canon = field
+            return rn, rec.fields[field]
         todo.extend(rec.bases)
     return None, None
